@@ -30,7 +30,7 @@ for d in sorted(glob.glob("/tmp/wt/out/*/m*")):
     key = "%s/%s" % (pdir, d.split("/")[-1])
     res = rows.get(key, [])
     v = verify.get(d, "")
-    dead = "demo_mut_pure=0" in v
+    dead = "demo_mut_pure=0" in v and "demo_mut_cy=0" in v
     if dead or not res:
         print("skip %s (dead=%s, sweep rows=%d)" % (mid, dead, len(res)))
         continue
